@@ -104,6 +104,7 @@ func (p *postprocessor) worker(workerID string) {
 		case seed, ok := <-p.inputCh:
 			if ok {
 				logger.Debug("received seed", "seed", seed.GetShortID())
+				verifhook.At("postprocessor.received", seed.GetID())
 
 				if err := seed.CheckConsistency(); err != nil {
 					panic(fmt.Sprintf("seed consistency check failed with err: %s, seed id %s", err.Error(), seed.GetShortID()))
@@ -113,6 +114,7 @@ func (p *postprocessor) worker(workerID string) {
 					logger.Debug("skipping seed", "seed", seed.GetShortID(), "depth", seed.GetDepth(), "hops", seed.GetURL().GetHops(), "status", seed.GetStatus().String())
 				} else {
 					outlinks := postprocess(workerID, seed)
+					verifhook.At("postprocessor.outlinks", seed.GetID())
 					for i := range outlinks {
 						select {
 						case <-p.ctx.Done():
